@@ -25,6 +25,12 @@ REPLIES = [
     ("502", b"HTTP/1.1 502 Bad Gateway\r\n\r\n", False),
     ("2000", b"HTTP/1.1 2000 Weird\r\n\r\n", False),
     ("20", b"HTTP/1.1 20 Short\r\n\r\n", False),
+    ("200OK_glued", b"HTTP/1.1 200OK\r\n\r\n", False),
+    ("200.0", b"HTTP/1.1 200.0 OK\r\n\r\n", False),
+    ("200;x", b"HTTP/1.1 200;x OK\r\n\r\n", False),
+    ("299", b"HTTP/1.1 299 Custom Success\r\n\r\n", False),
+    ("202", b"HTTP/1.1 202 Accepted\r\n\r\n", False),
+    ("100_then_nothing", b"HTTP/1.1 100 Continue\r\n\r\n", False),
     ("garbage", b"\x16\x03\x01\x02\x00\x01\x00\x01\xfc\x03\x03" + b"\xaa" * 60 + b"\r\n\r\n", False),
     ("not_http", b"SSH-2.0-OpenSSH_8.9\r\n\r\n", False),
     ("empty", b"", False),
